@@ -191,8 +191,9 @@ class C17Noise(Machine):
         if k in ("read", "copy", "rebuild"):
             return {"op": k, "v": v}
         if k == "rebase_evaluated":
+            how = rng.pick(["rebind", "inplace", "aug"])
             return {"op": k, "k0": rng.randint(-n, n), "m": rng.pick([n, max(2, n // 2)]),
-                    "inplace": rng.chance(0.5)}
+                    "inplace": how == "inplace", "how": how}
         if k == "shared_window":
             return {"op": k, "v": v, "k0": rng.randint(-n, n), "shift": rng.pick([1, -2, 7])}
         if k == "antenna_windows":
@@ -398,9 +399,19 @@ class C17Noise(Machine):
         if len(obj.freqs) != len(self.basis.freqs):
             raise Violation("C17:rebuild-freqs", "same grid and band give different frequencies")
         later = times + self.cfg["dt"]
+        how = op.get("how") or ("inplace" if op.get("inplace") else "rebind")
+        if how == "aug":
+            # the basis is reached by augmented assignments (in-place arithmetic followed by the
+            # assignment of the same array object) after the object was evaluated
+            obj.amps = self.basis.amps * 0.5
+            obj.phases = self.basis.phases - 1.0
         st, _ = self.sut(lambda: (np.array(obj.values), np.array(obj.with_times(later).values)),
                          where="evaluate before rebase")
-        if op.get("inplace"):
+        if how == "aug":
+            obj.amps *= 2.0
+            obj.phases += 1.0
+            self.count("probe.basis_by_augmented_assignment")
+        elif how == "inplace":
             # the published arrays are edited in place (same array objects)
             obj.amps[:] = self.basis.amps
             obj.phases[:] = self.basis.phases
@@ -410,7 +421,7 @@ class C17Noise(Machine):
         self.count("probe.rebuild_compared")
         self.nontrivial = True
         n = 0
-        if not op.get("inplace"):
+        if how != "inplace":
             # the object itself (its values were read before the assignment) publishes the new basis
             n += self._check_view(View(obj, 0.0), "values of an evaluated object after its basis was assigned")
         # the very windows that were evaluated before the basis changed, and a new one
